@@ -81,8 +81,20 @@ CommitBad(r) ==
                     \E k \in FirstBatched(r, j) : 3 * (Lines[j].t - Lines[k].t) < 1000 * Hdr(r).maxage_ms} \cup
     \* the age limit counts from the FIRST operation of the batch: a submission that starts more than
     \* 6 x MaxBatchAge after it must not find that batch still uncommitted (at most 2 failures are injected)
-    {j \in Idx(r) : Lines[j].ev = "call" /\ Hdr(r).batching /\
-                    \E k \in FirstBatched(r, j) : Lines[j].t - Lines[k].t > 6 * 1000 * Hdr(r).maxage_ms}
+    {j \in Idx(r) : Lines[j].ev \in {"call", "shutdown"} /\ Hdr(r).batching /\
+                    \E k \in FirstBatched(r, j) : Lines[j].t - Lines[k].t > 6 * 1000 * Hdr(r).maxage_ms} \cup
+    \* the batch never grows beyond its size limit (unless the commit at the limit failed)
+    {j \in Idx(r) : Lines[j].ev = "batched" /\ Lines[j].cur > Hdr(r).maxsize /\
+                    ~\E k \in Idx(r) : k > LastOkCommit(r, j) /\ k < j /\ Lines[k].ev = "commit" /\ ~Lines[k].ok} \cup
+    \* without batching there is no batch worker
+    {j \in Idx(r) : ~Hdr(r).batching /\ Lines[j].ev \in {"batched", "batcherr", "commit"}}
+
+\* transcription-level consistency of the worker's counter (batchCurSize): it counts the items added
+\* since the last successful commit.  Used for traces of the repository's own tests, which have no
+\* driver lines for the full conformance check below.
+NSince(r, j) == Cardinality({k \in Idx(r) : k > LastOkCommit(r, j) /\ k < j /\ Lines[k].ev = "batched"})
+CurDrift(r) == {j \in Idx(r) : \/ Lines[j].ev = "batched" /\ Lines[j].cur # NSince(r, j) + 1
+                               \/ Lines[j].ev = "commit" /\ Lines[j].cur # NSince(r, j)}
 
 \* at the end nothing accepted is still waiting (queue, worker or uncommitted batch)
 PendingBad(r) ==
@@ -98,7 +110,7 @@ FaultClass(r) ==
 
 Verdict(r) == [run |-> Hdr(r).run, fclass |-> FaultClass(r),
                lost |-> LostBad(r), hook |-> HookBad(r), refuse |-> RefuseBad(r), err |-> ErrBad(r),
-               commit |-> CommitBad(r), pending |-> PendingBad(r),
+               commit |-> CommitBad(r), pending |-> PendingBad(r), curdrift |-> CurDrift(r),
                first |-> Starts[r], last |-> EndOf(r)]
 
 -----------------------------------------------------------------------------
